@@ -137,7 +137,7 @@ TEXT = {
     },
     "C11": {
         "text": "Theorems on the timed-call model: return no later than T(2^n - 1) for EVERY delivery stream and cancel/close instant; return at the cancellation instant with the context's error, "
-                "at the close instant with the no-response error, at the arrival of the first acceptable response; after a call's cancel its id is not pending (from the routing invariant, for "
+                "at the close instant with the no-response error, at the arrival of the first acceptable response; over all tries a returned response is the first accepted datagram of the call's stream, everything before it rejected (C11_response_is_first_acceptable); after a call's cancel its id is not pending (from the routing invariant, for "
                 "all interleavings); refutation for the pinned timer. Real clients: synctest scenarios with exact instants; bubble exit shows no goroutine is left.",
         "note": COMMON_NOTE + "Goroutine-leak freedom beyond the explored schedules is a statement about the model's steps, not a runtime guarantee.",
         "technique": "Coq proof (timed-call model + routing invariant) + virtual-time harness with cancellation/Close at arbitrary instants",
